@@ -383,7 +383,11 @@ class Encoder(object):
         args = n.args[1:]
         if name == 'exp':
             self.var('EULER')
-            return self._atom(T.var('EULER'), args[0])
+            a_ = self._atom(T.var('EULER'), args[0])
+            # convexity bound, true for every real argument: exp(y) >= 1 + y  (lets the solver see that a mode with a
+            # small decay exponent is NOT negligible when it searches a witness)
+            self.axioms.append(a_ >= 1 + self.memo[args[0]])
+            return a_
         key = n
         v = self.fn_atoms.get(key)
         if v is not None:
